@@ -6,11 +6,20 @@ IntegratedCell / manual controller API, followed by engine A (mc/explore.py) for
 
 Scenario (enumerated exhaustively, outer product): driver mode (one-shot execute_operation,
 IntegratedCell.execute, manual start/advance/acquire/.../complete|abort) x request list over
-r1..r3 (length 0..3, repeats included) x priority {0,5} x validate_fn present/absent x for
+r1..r3 (length 0..3, repeats included; the empty list also as resources=None) x priority {0,5,9}
+(below / between / EQUAL to the holders' priorities) x validate_fn present/absent x for
 every requested resource {free, held by a live priority-0 holder, held by a priority-9 holder}
-x {preemptable, not}. Choice points inside one run (ch.pick, 0 = benign): every phase
-checkpoint {default, false, raise, then an external ending}, work_fn {return, raise, external
-ending, nested higher-priority preemptor}, validate_fn {true, false, raise, external ending};
+x {preemptable, not} x system variant {total-time watchdog limit; the same after a HISTORY on
+the same system (the same operation id committed on all resources, failed in work, was killed
+while holding; resources first registered through system.register_resource and re-registered);
+only the per-phase watchdog limits (starvation / no progress); limit timedelta(0); limit None;
+IntegratedCell with pool_capacity=0, degradation_threshold=1.0 and the agent registered with
+surveillance}. Choice points inside one run (ch.pick, 0 = benign): every phase
+checkpoint {default, false, None, 0, truthy non-bool, raise, raise with an EMPTY message, raise
+StopIteration, then an external ending}, work_fn {return a value, return None, return 0, raise,
+raise with an empty message, raise StopIteration, external ending, nested higher-priority
+preemptor}, validate_fn {true, truthy non-bool, false, None, 0, "", raise, raise with an empty
+message, raise KeyError(''), external ending};
 manual driver: external ending between any two steps, retry after a failed checkpoint, abort
 instead of complete. One-shot drivers (execute_operation / IntegratedCell.execute), whose
 acquisition loop and release loops contain no user callback: the resources are ProbeLock objects
@@ -19,8 +28,11 @@ try_acquire / release the library issues for the operation - k-th acquisition in
 repeats, preempting and blocked ones; every release on every exit path, incl. the releases made
 by an ending itself - is a choice point {default, external ending right before the lock step,
 external ending right after it (lock changed, controller bookkeeping not yet)}.
-External endings: kill_operation, watchdog (virtual clock past max_operation_time,
-run_maintenance), shutdown.
+External endings: kill_operation, watchdog (virtual clock jumps an hour, run_maintenance),
+shutdown. Whether the operation is LIVE when an ending is issued is decided from the history of
+calls (driver call not returned, no ending issued before), not from the controller's tables;
+without a total-time limit a maintenance call is an ending iff its public report names the
+operation (or the operation is gone), otherwise the operation goes on and is judged as usual.
 
 Oracle (from the statement): whenever an ending call returns (kill/shutdown/maintenance
 inside a callback, and the driver call itself): no registered resource is owned by the
@@ -59,10 +71,23 @@ HOLD_KINDS = ("free", "H0", "H9")  # nobody / live holder with priority 0 / with
 UNREQUESTED = ("H0", True)  # a resource that is not requested is held by a weak, preemptable holder
 EXT = ("kill", "watchdog", "shutdown")
 MAX_OP_TIME = 60
+PRIOS = (0, 5, 9)  # below / between / equal to the strongest holder (and equal / above the weakest)
+# watchdog configuration: total-time limit (the clock jumps far beyond it) | only the per-phase limits (starvation in
+# G1, no progress in S: the watchdog ends the operation at some points and spares it at others) | limit 0 | no limit
+WD_KINDS = ("max", "phase", "zero", "none")
 
 
 class Injected(Exception):
     """raised by callbacks on the 'raise' answer"""
+
+
+# More callback answers (appended after the original ones): falsy / truthy values that are not bools, exceptions with
+# an EMPTY message and of a class with a meaning of its own.
+FALSY = {"none": None, "zero": 0, "empty": ""}
+RAISES = {"raise-empty": Injected, "raise-stopiteration": StopIteration, "raise-keyerror-empty": lambda: KeyError("")}
+CP_MORE = ("none", "zero", "raise-empty", "raise-stopiteration", "truthy")
+WORK_MORE = ("none", "zero", "raise-empty", "raise-stopiteration")
+VALIDATE_MORE = ("none", "zero", "empty", "raise-empty", "raise-keyerror-empty", "truthy")
 
 
 # ---------------------------------------------------------------- one scenario run
@@ -92,20 +117,65 @@ def lock_state(system):
 
 
 def build_system(scn, cell_mode):
+    wd = scn.get("wd", "max")
+    limit = timedelta(seconds=MAX_OP_TIME)
+    total = {"max": limit, "phase": None, "zero": timedelta(0), "none": None}[wd]
     if cell_mode:
-        cell = IntegratedCell(max_operation_time=timedelta(seconds=MAX_OP_TIME))
+        if scn.get("cellopt"):  # the options of the cell away from their defaults + an agent known to surveillance
+            cell = IntegratedCell(pool_capacity=0, degradation_threshold=1.0, max_operation_time=total)
+            cell.register_agent("agent")
+        else:
+            cell = IntegratedCell(max_operation_time=total)
         system = cell.coordination
     else:
         cell = None
-        system = CoordinationSystem(max_operation_time=timedelta(seconds=MAX_OP_TIME))
+        if wd == "phase":
+            system = CoordinationSystem(max_operation_time=None, starvation_timeout=limit, progress_timeout=limit)
+        else:
+            system = CoordinationSystem(max_operation_time=total)
     return cell, system
 
 
-def add_holders(system, clock, hold, only=None):
+def raising_work():
+    raise Injected("history")
+
+
+def run_history(system):
+    """What happened on the system before the judged operation: the SAME id committed on every resource (one of them
+    twice), failed in its work function, and was killed while holding a resource (public API only)."""
+    ctl = system.controller
+    viols = []
+
+    def ended(path):
+        owned = sorted(r for r, l in ctl.resources.items() if l.owner is not None)
+        if owned or ctl.active_operations:
+            viols.append((f"leak:history-operation:{path}", f"an earlier operation '{OP}' on a system with free resources only "
+                          f"(exit path {path}) left {owned} owned, active operations {sorted(ctl.active_operations)}"))
+
+    system.execute_operation(OP, "agent0", trivial_work, resources=list(RES) + [RES[0]], priority=7)
+    ended("commit")
+    system.execute_operation(OP, "agent0", raising_work, resources=[RES[1]], priority=1)
+    ended("work-raise")
+    ctx = system.start_operation(OP, "agent0", 3)
+    ctl.advance(ctx)
+    ctl.acquire_resource(ctx, RES[2])
+    system.kill_operation(OP, reason="history")
+    ended("kill")
+    return viols
+
+
+def add_holders(system, clock, hold, only=None, history=False):
     """register r1..r3 and start the holder operations (public manual API)"""
+    if history:
+        for r in RES:  # first registration through the system API with the opposite flag: replaced just below
+            system.register_resource(r, allow_preemption=not hold[r][1])
     for r in RES:
         kind, pre = hold[r]
         system.controller.register_resource(ProbeLock(resource_id=r, allow_preemption=bool(pre)))
+    if history:
+        viols = run_history(system)
+        if viols:
+            return viols  # the statement is already violated by the history itself: nothing to set up on top of it
     for r in RES:
         kind, pre = hold[r]
         if kind == "free" or (only is not None and r not in only):
@@ -118,6 +188,7 @@ def add_holders(system, clock, hold, only=None):
         got = system.controller.acquire_resource(h, r)
         if got != LockResult.ACQUIRED:
             raise common.HarnessError(f"holder set-up: {got}")
+    return []
 
 
 def full_hold(scn):
@@ -163,6 +234,8 @@ def run_scenario(scn, ch):
     env.not_yet = None  # resources not yet granted when the FIRST external ending happened
     env.lock_steps = {"acquire": 0, "release": 0}
     env.inflight = None  # lock granted inside the current lock step, not yet booked by the controller
+    env.ended = False  # an external ending has been issued to the live operation (the OBSERVER's history of calls)
+    wd = scn.get("wd", "max")
     env.clock = clock = vclock.VClock()
     vclock.use(clock)
     mode = scn["mode"]
@@ -172,8 +245,13 @@ def run_scenario(scn, ch):
     pre = {r: bool(hold[r][1]) for r in RES}
     env.cell, env.system = cell, system = build_system(scn, mode == "cell")
     ctl = system.controller
-    add_holders(system, clock, hold)
+    env.viols += add_holders(system, clock, hold, history=bool(scn.get("history")))
     env.pre_state = lock_state(system)
+    if env.viols:
+        env.success, env.exit_path, env.final, env.expected, env.error = None, "history", env.pre_state, env.pre_state, None
+        env.done = True
+        env.outcome = (mode, "history", None, 0, 0, tuple(sorted(env.final.items())))
+        return env
 
     def bad(key, what):
         env.viols.append((key, what))
@@ -192,20 +270,33 @@ def run_scenario(scn, ch):
 
     def external(i, where):
         name = EXT[i]
-        env.ext.append(name)
-        was_active = OP in ctl.active_operations
-        if env.not_yet is None:
-            # the statement lets a driver stop at the ending (these stay untouched) as well as carry
-            # on, obtain them and release them at the end
-            env.not_yet = set(RES) - env.owned_ever
+        # Is the operation live?  Decided from the history of calls (its driver call has not returned and no ending
+        # was issued to it before), never from the controller's own tables.
+        was_live = not env.ended
+        not_yet = set(RES) - env.owned_ever
+        took = was_live
         if name == "kill":
             system.kill_operation(OP, reason="manual")
         elif name == "watchdog":
             clock.advance(3600)
-            (cell or system).run_maintenance()
+            events = (cell or system).run_maintenance()
+            if wd != "max":
+                # without a total-time limit the watchdog ends the operation in some phases only (or never): it is an
+                # ending iff the maintenance call says so (its public report) or the operation is gone afterwards
+                apo = (events["coordination"] if cell else events)["apoptosis"]
+                took = was_live and (any(e.operation_id == OP for e in apo) or OP not in ctl.active_operations)
+                if not took:
+                    env.faults.append("maintenance")  # spared: not an ending, the operation goes on
+                    return
         else:
             (cell or system).shutdown()
-        if was_active:
+        env.ext.append(name)
+        if took:
+            env.ended = True
+            if env.not_yet is None:
+                # the statement lets a driver stop at the ending (these stay untouched) as well as carry
+                # on, obtain them and release them at the end
+                env.not_yet = not_yet
             check_ended(name, f"{name} (issued at {where})")
         # else: it had been ended before and its driver is still winding down (possible only from inside
         # a lock step): this call is not the operation's ending; judged when the driver call returns
@@ -250,15 +341,20 @@ def run_scenario(scn, ch):
             if env.done or ctx.operation_id != OP:
                 return orig(ctx)
             fix_created(ctx)
-            c = ch.pick(3 + len(EXT), f"cp:{phase}")
-            if c == 1:
+            nb = 3 + len(EXT)
+            c = ch.pick(nb + len(CP_MORE), f"cp:{phase}")
+            more = CP_MORE[c - nb] if c >= nb else None
+            if c == 1 or more in ("none", "zero"):
                 env.faults.append(f"cp-false:{phase}")
-                r = False
-            elif c == 2:
+                r = False if c == 1 else FALSY[more]  # falsy non-bool answers: None, 0
+            elif c == 2 or more in RAISES:
                 env.faults.append(f"cp-raise:{phase}")
                 if phase == "G0" and env.acq_snapshot is None:
                     env.acq_snapshot = lock_state(system)
-                raise Injected(f"checkpoint {phase}")
+                raise (Injected(f"checkpoint {phase}") if c == 2 else RAISES[more]())
+            elif more == "truthy":
+                orig(ctx)
+                r = "yes"  # truthy non-bool instead of the default answer
             else:
                 if c >= 3:
                     external(c - 3, f"cp:{phase}")
@@ -283,48 +379,53 @@ def run_scenario(scn, ch):
                 f"'{OP}' (owners { {r: ctl.resources[r].owner for r in missing} }, endings so far {env.ext})")
         owned = sorted(r for r in set(req) if ctl.resources[r].owner == OP)
         n = 2 + len(EXT) + (1 if owned else 0)
-        c = ch.pick(n, "work")
-        if c == 1:
+        c = ch.pick(n + len(WORK_MORE), "work")
+        more = WORK_MORE[c - n] if c >= n else None
+        if c == 1 or more in RAISES:
             env.faults.append("work-raise")
-            raise Injected("work")
+            raise (Injected("work") if c == 1 else RAISES[more]())
         if 2 <= c < 2 + len(EXT):
             external(c - 2, "work")
-        elif c == 2 + len(EXT):
+        elif c == 2 + len(EXT) and more is None:
             # a nested operation of higher priority asks for what we hold (preempts where allowed)
             env.faults.append("nested-preemptor")
-            system.execute_operation("N", "nested", lambda: "n", resources=owned, priority=9)
+            system.execute_operation("N", "nested", lambda: "n", resources=owned, priority=prio + 4)
             left = sorted(r for r, l in ctl.resources.items() if l.owner == "N")
             if left or "N" in ctl.active_operations:
                 bad("leak:nested-operation", f"nested one-shot operation left {left} owned / active")
         env.work_returned = True
-        return "result"
+        return FALSY[more] if more in FALSY else "result"  # work may return None / a falsy value
 
     def validate_fn(result):
         env.validate_runs += 1
         if not env.work_returned:
             bad("validate-before-work-completed", "validate_fn entered before work_fn returned")
-        c = ch.pick(3 + len(EXT), "validate")
-        if c == 1:
+        nb = 3 + len(EXT)
+        c = ch.pick(nb + len(VALIDATE_MORE), "validate")
+        more = VALIDATE_MORE[c - nb] if c >= nb else None
+        if c == 1 or more in FALSY:
             env.faults.append("validate-false")
-            return False
-        if c == 2:
+            return False if c == 1 else FALSY[more]  # falsy non-bool answers: None, 0, ""
+        if c == 2 or more in RAISES:
             env.faults.append("validate-raise")
-            raise Injected("validate")
-        if c >= 3:
+            raise (Injected("validate") if c == 2 else RAISES[more]())
+        if 3 <= c < nb:
             external(c - 3, "validate")
         env.validate_ok = True
-        return True
+        return "ok" if more == "truthy" else True
 
     env.validate_ok = False
     vfn = validate_fn if scn["validate"] else None
     success = None
     try:
         if mode == "oneshot":
-            res = system.execute_operation(OP, "agent", work_fn, resources=list(req), validate_fn=vfn, priority=prio)
+            res = system.execute_operation(OP, "agent", work_fn, resources=None if scn.get("resnone") else list(req),
+                                           validate_fn=vfn, priority=prio)
             success = bool(res.success)
             env.error = res.error
         elif mode == "cell":
-            res = cell.execute("agent", OP, work_fn, resources=list(req), validate_fn=vfn, priority=prio)
+            res = cell.execute("agent", OP, work_fn, resources=None if scn.get("resnone") else list(req), validate_fn=vfn,
+                               priority=prio)
             success = bool(res.success)
             env.error = res.error
         else:
@@ -340,8 +441,9 @@ def run_scenario(scn, ch):
     # ---- exit path name (for keys) and final judgement
     if env.ext:
         exit_path = env.ext[-1]
-    elif [f for f in env.faults if f != "nested-preemptor" and not f.startswith("retry:")]:
-        exit_path = [f for f in env.faults if f != "nested-preemptor" and not f.startswith("retry:")][-1].split(":")[0]
+    elif [f for f in env.faults if f not in ("nested-preemptor", "maintenance") and not f.startswith("retry:")]:
+        exit_path = [f for f in env.faults if f not in ("nested-preemptor", "maintenance")
+                     and not f.startswith("retry:")][-1].split(":")[0]
     else:
         snap = env.acq_snapshot or env.pre_state
         _own, blocked_at = predict_obtained(req, prio, snap, pre)
@@ -408,17 +510,16 @@ def _manual_driver(env, system, req, prio, work_fn, vfn, external):
         c = ch.pick(1 + len(EXT), f"between:{where}")
         if c:
             external(c - 1, where)
-            return True
-        return False
+        return env.ended  # (a maintenance call that spares the operation is not an ending: the caller goes on)
 
     def advance(ctx, name):
         r = ctl.advance(ctx)
         if r != CheckpointResult.PASSED and ch.pick(2, f"retry:{name}"):
             env.faults.append(f"retry:{name}")
             r = ctl.advance(ctx)  # false-then-pass
-        if ctl.active_operations.get(OP) is not ctx:
-            # the operation was ended from inside a checkpoint callback. In this mode acquiring and
-            # running work is the CALLER's job: a careful caller stops using a dead operation
+        if env.ended:
+            # the operation was ended from inside a checkpoint callback (the caller issued that ending itself). In this
+            # mode acquiring and running work is the CALLER's job: a careful caller stops using a dead operation
             raise _Ended()
         return r == CheckpointResult.PASSED
 
@@ -474,7 +575,8 @@ def _manual_driver(env, system, req, prio, work_fn, vfn, external):
         return False
     if c >= 2:
         external(c - 2, "before-complete")
-        return False
+        if env.ended:
+            return False
     return bool(ctl.complete_operation(ctx).success)
 
 
@@ -496,18 +598,44 @@ def patterns(full):
     return out
 
 
+# (watchdog configuration, history before the operation, cell options) per driver mode: the plain system with the
+# total-time limit, the same after a history of the same id, and the other watchdog configurations
+VARIANTS = {
+    "oneshot": (("max", False, None), ("max", True, None), ("phase", False, None), ("zero", False, None)),
+    "manual": (("max", False, None), ("max", True, None), ("phase", False, None), ("none", False, None)),
+    "cell": (("max", False, False), ("max", True, True), ("none", False, True), ("zero", False, False)),
+}
+
+
 def scenarios(tier):
-    full = tier == "thorough"
+    """quick: one request list per renaming class x all priorities x all system variants.  thorough: the same plus
+    every one of the 40 request lists x priorities {0,5} x the first (plain) variant - the renaming symmetry is not
+    relied upon there."""
+    out = _scenarios(False, PRIOS, VARIANTS)
+    if tier == "thorough":
+        seen = {repr(sorted(s.items())) for s in out}
+        out += [s for s in _scenarios(True, PRIOS[:2], {m: v[:1] for m, v in VARIANTS.items()})
+                if repr(sorted(s.items())) not in seen]
+    return out
+
+
+def _scenarios(full, prios, variants):
     out = []
     cfgs = [(k, p) for k in HOLD_KINDS for p in (False, True)]
     for mode in ("oneshot", "cell", "manual"):
         for req in patterns(full):
             distinct = sorted(set(req))
             for combo in itertools.product(cfgs, repeat=len(distinct)):
-                for prio in (0, 5):
+                for prio in prios:
                     for validate in (True, False):
-                        out.append({"mode": mode, "req": list(req), "prio": prio, "validate": validate,
-                                    "hold": {r: list(c) for r, c in zip(distinct, combo)}})
+                        for wd, history, cellopt in variants[mode]:
+                            scn = {"mode": mode, "req": list(req), "prio": prio, "validate": validate,
+                                   "hold": {r: list(c) for r, c in zip(distinct, combo)}, "wd": wd, "history": history}
+                            if mode == "cell":
+                                scn["cellopt"] = cellopt
+                            out.append(scn)
+                            if not req and mode != "manual":
+                                out.append(dict(scn, resnone=True))  # resources=None instead of []
     return out
 
 
@@ -539,9 +667,11 @@ def explore_chunk(args):
             if env.viols:
                 for k, w in env.viols:
                     viols.append((k, f"{scn['mode']} request {scn['req']} prio {scn['prio']} holders {scn['hold']} "
+                                     f"watchdog {scn.get('wd')} history {scn.get('history')} "
                                      f"answers {[(c, l) for c, l in ch.labelled() if c]}: {w}", case))
                 continue
-            key = (system_canon(env.system), tuple(sorted(env.expected.items())), "shutdown" in env.ext)
+            key = (system_canon(env.system), tuple(sorted(env.expected.items())), "shutdown" in env.ext,
+                   scn.get("wd"), bool(scn.get("history")))
             if key not in finals:
                 finals[key] = case
     return execs, viols, outcomes, finals, maxpicks
@@ -693,7 +823,7 @@ def run(ctx):
         evaluations=execs + fres["transitions"],
         distinct_nontrivial=n_outcomes,
         rule="engine B: every scenario (mode x request list x priority x validate x holder configuration of the requested "
-             f"resources) x every answer sequence with <= {max_dev} non-default answers at the checkpoint / work / validate "
+             f"resources x system variant: watchdog configuration / history of the same id / cell options) x every answer sequence with <= {max_dev} non-default answers at the checkpoint / work / validate "
              "/ between-steps / lock-step (one-shot modes: every try_acquire and release issued for the operation x "
              "{ending right before, ending right after} x {kill, watchdog, shutdown}) choice points, each executed on a fresh real system; distinct_nontrivial = distinct "
              "(mode, exit path, success, work runs, validate runs, final lock table) outcomes. engine A: BFS to depth "
@@ -701,7 +831,8 @@ def run(ctx):
              "compared with a twin system on which the operation never ran",
         exhaustive=True,
         deviation_bound=max_dev,
-        request_lists="all 40 lists over r1..r3 of length 0..3" if ctx.tier == "thorough"
+        request_lists="all 40 lists over r1..r3 of length 0..3 for priorities {0,5} on the plain system variant; one list "
+        "per renaming class (9) for priority 9 and the other system variants" if ctx.tier == "thorough"
         else "9 lists: one per renaming class of the 40 lists (resource ids are opaque keys)",
         scenarios=len(scns),
         scenario_executions=execs,
@@ -717,8 +848,12 @@ def run(ctx):
         "books it when try_acquire returns): that one lock is judged at the return of the driver call only; a "
         "kill / maintenance / shutdown call issued when the operation had already been ended is not an ending of it",
         "resources that are not requested are held by a priority-0 holder and preemptable (the most fragile setting)",
+        "priorities {0,5,9} for the operation, {0,9} for holders; callback answers: bools, None, 0, '', truthy non-bools, "
+        "exceptions with and without a message, StopIteration, KeyError('')",
+        "system variants are crossed with every scenario but not all with each other (the history is combined with the "
+        "total-time watchdog limit only)",
         "quick tier: request lists up to renaming of resources, at most 1 injected fault/ending per run; thorough: all "
-        "lists, at most 2",
+        "lists (plain system variant, priorities 0 and 5; the other variants and priority 9 up to renaming), at most 2",
         "ResourceLock.waiting_list residue and holder priority boosts are not part of the judged state",
     ]
 
